@@ -25,6 +25,7 @@ type Profile struct {
 	MinEvents   int
 	Prefix      int  // maximal length of the valid prefix (deliveries)
 	StartFaults bool // write faults may be armed before the connections start
+	SlowSetup   bool // the application's setup callback may take 11 virtual seconds
 	HostileIDs  bool // SHIP IDs from the hostile string generator
 	// server trust classes to draw from: "paired", "auto", "none"
 	Trust []string
@@ -46,6 +47,10 @@ func genConfig(t *rapid.T, p Profile) Config {
 	c.AllowWaiting[Server] = rapid.IntRange(0, 3).Draw(t, "allowS") != 0
 	c.AllowWaiting[Client] = rapid.IntRange(0, 3).Draw(t, "allowC") != 0
 	c.Paired[Client] = rapid.Bool().Draw(t, "pairedC") // the hub only dials registered SKIs, but the role decides anyway
+	if p.SlowSetup {
+		c.SlowSetup[Client] = rapid.IntRange(0, 5).Draw(t, "slowSetupC") == 0
+		c.SlowSetup[Server] = rapid.IntRange(0, 5).Draw(t, "slowSetupS") == 0
+	}
 	c.LocalID[Client] = genID(t, "idC", p.HostileIDs)
 	c.LocalID[Server] = genID(t, "idS", p.HostileIDs)
 	for s := 0; s < 2; s++ {
@@ -83,6 +88,12 @@ func genEvent(t *rapid.T, p Profile) Event {
 		ev.N = rapid.IntRange(0, 99).Draw(t, "n")
 	case EvFailWrite, EvFailOnce:
 		ev.N = rapid.IntRange(1, 4).Draw(t, "k")
+	case EvUserDuring:
+		ev.N = rapid.IntRange(1, 3).Draw(t, "k")
+		ev.B = rapid.Bool().Draw(t, "approve")
+		if rapid.IntRange(0, 3).Draw(t, "userSide") != 0 {
+			ev.S = Server
+		}
 	case EvApprove, EvCancel:
 		if rapid.IntRange(0, 4).Draw(t, "userSide") != 0 {
 			ev.S = Server
@@ -147,12 +158,12 @@ func kinds(pairs ...any) []string {
 var profAdversarial = Profile{
 	Kinds: kinds(EvStep, 10, EvDeliver, 3, EvDrain, 2, EvInject, 8, "data", 3, EvAdvance, 5, EvApprove, 2, EvCancel, 2, EvDrop, 1, EvDup, 1,
 		EvSetPaired, 1, EvSetAllow, 1, EvCloseLocal, 1, EvTransportError, 1, EvPropagate, 2, EvSpineWrite, 2, EvFailWrite, 1, EvFailOnce, 1, EvBurst, 1, EvSetAuto, 1),
-	MinEvents: 0, MaxEvents: 30, Prefix: 20, HostileIDs: false, StartFaults: true, Trust: []string{"none", "none", "none", "paired", "auto"},
+	MinEvents: 0, MaxEvents: 30, Prefix: 20, HostileIDs: false, StartFaults: true, SlowSetup: true, Trust: []string{"none", "none", "none", "paired", "auto"},
 }
 
 // Scheduling-only profile (C03): both endpoints are the code under test and
 // the man in the middle only chooses the order of things.
 var profSchedule = Profile{
 	Kinds:     kinds(EvDeliver, 16, EvDrain, 2, EvAdvance, 4, EvApprove, 2, EvCancel, 1, EvPropagate, 2),
-	MinEvents: 0, MaxEvents: 40, HostileIDs: true, Trust: []string{"none", "none", "none", "paired", "auto"},
+	MinEvents: 0, MaxEvents: 40, HostileIDs: true, SlowSetup: true, Trust: []string{"none", "none", "none", "paired", "auto"},
 }
